@@ -357,6 +357,21 @@ def execute(case):
         if disc[-1].snap[1] and not started:
             res.bad(key + '/graceful_without_close_handshake',
                     'events %s' % an[-6:])
+    # ---- the socket is closed by the time the terminal event is yielded
+    for e in tr.events:
+        if e.name in ('disconnected', 'connect_fail') and e.open_socks:
+            res.bad(key + '/socket_open_at_terminal_event',
+                    '%d socket(s) still open when %s was yielded' % (
+                        e.open_socks, e.name))
+            break
+    for c in tr.calls:
+        evn = tr.events[c.at_event].name
+        if evn in ('disconnected', 'connect_fail') and c.op != 'close' and (
+                c.outcome == 'ok' or c.wrote):
+            res.bad(key + '/send_accepted_at_terminal_event',
+                    '%s at %s returned %s and wrote %d bytes' % (
+                        c.op, evn, c.outcome, c.wrote))
+            break
     # ---- sockets closed (or released)
     gc_only = 0
     for srec in (tr.release or {}).get('socks', []):
